@@ -480,6 +480,13 @@ class Gen(object):
         return {'op': 'cfg_mutate', 'c': self.rng.randrange(len(self.w.configs)), 'field': f,
                 'value': self.rng.choice(VALID[f])}
 
+    def g_cfg_template(self):
+        if self.w.cfg_template is not None and self.rng.random() < 0.6:
+            return {'op': 'cfg_template', 'c': None}
+        if not self.w.configs:
+            return self.g_cfg_new()
+        return {'op': 'cfg_template', 'c': self.rng.randrange(len(self.w.configs))}
+
     def g_new_cfg(self):
         if not self.w.configs:
             return self.g_cfg_new()
@@ -982,6 +989,7 @@ class Gen(object):
                 add(int(10 * p.p_register) + 1, self.g_register_set, 'registers')
             if 'F5' in F:
                 add(3, self.g_template, 'templates')
+                add(1, self.g_cfg_template, 'templates')
             if 'F6' in F:
                 add(2, self.g_cont_mutate, 'containers')
             if 'F1' in F:
